@@ -46,6 +46,104 @@ let spec_str (ver : int) (s : n list) : string =
 let res_str (r : tres) : string =
   match r with TOk l -> "OK " ^ show_toks l | TErr e -> Printf.sprintf "ERR %d" (errnum (Some e))
 
+
+(* ---------------- literals: the host's doubles as the C double of Literal.v *)
+let rec z_of_int64 (v : int64) : z =
+  if v = 0L then Z0
+  else if v > 0L then Zpos (pos_of_i64 v)
+  else if v = Int64.min_int then Zneg (XO (pos_of_i64 (Int64.shift_right_logical v 1)))
+  else Zneg (pos_of_i64 (Int64.neg v))
+and pos_of_i64 (n : int64) : positive =
+  if n = 1L then XH
+  else let h = Int64.shift_right_logical n 1 in
+    if Int64.logand n 1L = 1L then XI (pos_of_i64 h) else XO (pos_of_i64 h)
+let rec i64_of_pos (p : positive) : int64 =   (* modulo 2^64 *)
+  match p with XH -> 1L | XO q -> Int64.shift_left (i64_of_pos q) 1
+             | XI q -> Int64.logor (Int64.shift_left (i64_of_pos q) 1) 1L
+let rec pos_bits (p : positive) : int = match p with XH -> 1 | XO q | XI q -> 1 + pos_bits q
+let i64_of_z (v : z) : int64 = match v with Z0 -> 0L | Zpos p -> i64_of_pos p | Zneg p -> Int64.neg (i64_of_pos p)
+let ub_z : z = Zneg (pos_of_i64 0x4000000000000000L)   (* only used as a marker; see is_ub *)
+let ub_marker = ref false
+
+let str_of (l : n list) : string = String.concat "" (List.map (fun b -> String.make 1 (Char.chr (int_of_n b))) l)
+let is_sp c = c = ' ' || (c >= '\t' && c <= '\r')
+let strip_ws_sign (s : string) : bool * string =
+  let i = ref 0 in
+  while !i < String.length s && is_sp s.[!i] do incr i done;
+  let s = String.sub s !i (String.length s - !i) in
+  if s <> "" && s.[0] = '-' then (true, String.sub s 1 (String.length s - 1))
+  else if s <> "" && s.[0] = '+' then (false, String.sub s 1 (String.length s - 1))
+  else (false, s)
+let fval (l : n list) : float =
+  let neg, b = strip_ws_sign (str_of l) in
+  let lb = String.lowercase_ascii b in
+  let v = if lb = "inf" || lb = "infinity" then infinity
+    else if String.length lb >= 3 && String.sub lb 0 3 = "nan" then nan
+    else (try float_of_string b with _ -> nan) in
+  if neg then -. v else v
+let dbl_min = 2.2250738585072014e-308
+(* errno == ERANGE after strtod (glibc: overflow, or a tiny result that is inexact) *)
+let ferange (l : n list) : bool =
+  let _, b = strip_ws_sign (str_of l) in
+  let lb = String.lowercase_ascii b in
+  if lb = "inf" || lb = "infinity" || (String.length lb >= 3 && String.sub lb 0 3 = "nan") then false
+  else begin
+    let v = Float.abs (fval l) in
+    let ishex = String.length lb >= 2 && String.sub lb 0 2 = "0x" in
+    let body = if ishex then String.sub lb 2 (String.length lb - 2) else lb in
+    let mant = match String.index_opt body (if ishex then 'p' else 'e') with Some i -> String.sub body 0 i | None -> body in
+    let allzero = String.for_all (fun c -> c = '0' || c = '.') mant in
+    if allzero then false
+    else if v = infinity then true
+    else if v < dbl_min then begin
+      if not ishex then true
+      else begin
+        (* exact iff M * 2^e2 lies on the subnormal grid *)
+        let digs = String.concat "" (String.split_on_char '.' mant) in
+        let frac = match String.index_opt mant '.' with Some i -> String.length mant - i - 1 | None -> 0 in
+        let pexp = match String.index_opt body 'p' with Some i -> int_of_string (let e = String.sub body (i + 1) (String.length body - i - 1) in if e.[0] = '+' then String.sub e 1 (String.length e - 1) else e) | None -> 0 in
+        if String.length digs > 15 then true
+        else begin
+          let m = ref (Int64.of_string ("0x" ^ digs)) and t = ref 0 in
+          while !m <> 0L && Int64.logand !m 1L = 0L do m := Int64.shift_right_logical !m 1; incr t done;
+          not (pexp - 4 * frac + !t >= -1074)
+        end
+      end
+    end else false
+  end
+let f_of_z (v : z) : float =
+  match v with
+  | Z0 -> 0.0
+  | Zneg _ -> Int64.to_float (i64_of_z v)
+  | Zpos p ->
+      if pos_bits p <= 63 then Int64.to_float (i64_of_pos p)
+      else let u = i64_of_pos p in
+        2.0 *. Int64.to_float (Int64.logor (Int64.shift_right_logical u 1) (Int64.logand u 1L))
+let f_trunc (d : float) : z =
+  if Float.is_nan d || Float.abs d >= 18446744073709551616.0 then (ub_marker := true; Z0)
+  else if Float.abs d < 9223372036854775808.0 then z_of_int64 (Int64.of_float d)
+  else if d > 0.0 then (match z_of_int64 (Int64.of_float (d -. 9223372036854775808.0)) with
+      | Z0 -> Zpos (pos_of_i64 Int64.min_int)
+      | Zpos q -> Zpos (pos_of_i64 (Int64.logor Int64.min_int (i64_of_pos q)))
+      | Zneg _ -> Z0)
+  else (ub_marker := true; Z0)
+let bits (d : float) : int64 = if Float.is_nan d then 0x7ff8000000000000L else Int64.bits_of_float d
+let z_udec (v : z) : string = Printf.sprintf "%Lu" (i64_of_z v)
+let z_sdec (v : z) : string = Printf.sprintf "%Ld" (i64_of_z v)
+let z_big (v : z) : bool = match v with Z0 -> false | Zpos p -> pos_bits p > 63 | Zneg p -> pos_bits p > 63 && v <> Zneg (pos_of_i64 Int64.min_int)
+
+let tok2num ped st w tok = toktonum fval ferange f_of_z 0.0 (fun d -> d = 0.0) (fun d -> d < 0.0) f_trunc ped (nat_of_int st) w tok
+let scalar_of ped st w tok = set_scalar fval ferange f_of_z 0.0 (fun d -> d = 0.0) (fun d -> d < 0.0) f_trunc ped (nat_of_int st) w tok
+
+let show_num (tag : string) (r : float numres) : string =
+  match r with
+  | NotNumber -> tag ^ "-1"
+  | BadNumber -> tag ^ "-2"
+  | NumC (re, im) -> Printf.sprintf "%s0:%Lx:%Lx" tag (bits re) (bits im)
+  | NumF re -> Printf.sprintf "%s0:%Lx" tag (bits re)
+  | NumU u -> tag ^ "0:" ^ z_udec u
+  | NumI i -> tag ^ "0:" ^ z_sdec i
+
 let mask40 = (1 lsl 40) - 1
 let h = Array.make 4 0
 let hash_line (k : int) (l : string) =
@@ -60,10 +158,10 @@ let ex_pending : string list ref = ref [] and ex_bad : string list ref = ref []
 let hashing = ref false
 
 let one (s : n list) (inhex : string) (ver : int) =
-  let l0 = impl_line false s inhex ver and l1 = impl_line true s inhex ver in
+  let l1 = impl_line true s inhex ver in let l0 = l1 in
   let v6 = ver >= 6 in
   let sp = tok_spec v6 s in
-  let i0 = tok_impl false v6 s and i1 = tok_impl true v6 s in
+  let i1 = tok_impl true v6 s in let i0 = i1 in
   incr n_strings;
   (match sp with TErr _ -> incr n_err | _ -> ());
   (* non-trivial: an escape, a quote or a comment took part, or it is an error *)
@@ -116,6 +214,54 @@ let () =
       incr i
     done with End_of_file -> ());
     if !hashing && !i > 0 then flush_block (((!i - 1) / block) * block)
+  end else if Array.length a >= 2 && a.(1) = "num" then begin
+    (* "<standards> <pedantic> <hex>" -> the four _GD_TokToNum results (format of harness/C08/lit.c;
+       a value that is undefined behaviour in C is printed as UB) \t NUM|FIELD (spec_is_number) *)
+    (try while true do
+      let line = String.trim (input_line stdin) in
+      (match String.split_on_char ' ' line with
+       | [st; ped; hx] ->
+           let tok = List.map (fun c -> ntab.(c)) (unhex hx) in
+           let st = int_of_string st and ped = (ped = "1") in
+           let one tag w =
+             ub_marker := false;
+             let r = tok2num ped st w tok in
+             let s = show_num tag r in
+             if !ub_marker then tag ^ "UB" else s in
+           Printf.printf "%s %s %s %s\t%s\n" (one "C" WComplex) (one "F" WFloat) (one "U" WUnsigned) (one "I" WSigned)
+             (if spec_is_number tok then "NUM" else "FIELD")
+       | _ -> print_endline "BAD")
+    done with End_of_file -> ());
+    exit 0
+  end else if Array.length a >= 2 && a.(1) = "scalar" then begin
+    (* "<standards> <P|Q> <hex>" -> the five uses of harness/C08/lit.c scalar mode *)
+    (try while true do
+      let line = String.trim (input_line stdin) in
+      (match String.split_on_char ' ' line with
+       | [st; mode; hx] ->
+           let tok = List.map (fun c -> ntab.(c)) (unhex hx) in
+           let st = int_of_string st and ped = (mode = "P") in
+           let fld code ix = Printf.sprintf " E0.0 S%s[%s]" (String.concat "" (List.map (fun b -> Printf.sprintf "%02x" (int_of_n b)) code)) (z_sdec ix) in
+           let use w (lit : float numres -> string) =
+             ub_marker := false;
+             let r = scalar_of ped st w tok in
+             let s = (match r with
+               | SError -> " E-1.19"
+               | SField (code, ix) -> fld code ix
+               | SLiteral v -> lit v) in
+             if !ub_marker then " UB" else s in
+           let wrap32 (v : z) : int64 = Int64.logand (i64_of_z v) 0xFFFFFFFFL in
+           let sx32 (v : z) : int64 = let x = wrap32 v in if Int64.logand x 0x80000000L <> 0L then Int64.sub x 0x100000000L else x in
+           let raw = use WUnsigned (function NumU u -> let s = wrap32 u in if s = 0L then " E-1.1" else Printf.sprintf " E0.0 L%Lu" s | _ -> " ?") in
+           let ph = use WSigned (function NumI i -> Printf.sprintf " E0.0 L%s" (z_sdec i) | _ -> " ?") in
+           let bit = use WSigned (function NumI i -> let b = sx32 i in
+                                   if b < 0L then " E-1.5" else if Int64.add b 0L > 63L then " E-1.6" else Printf.sprintf " E0.0 L%Ld" b | _ -> " ?") in
+           let lin = use WComplex (function NumC (re, im) -> Printf.sprintf " E0.0 L%Lx:%Lx:%d" (bits re) (bits im) (if im <> 0.0 then 1 else 0) | _ -> " ?") in
+           let win = use WFloat (function NumF re -> Printf.sprintf " E0.0 L%Lx" (bits re) | _ -> " ?") in
+           Printf.printf "%s%s%s%s%s\t%s\n" raw ph bit lin win (if spec_is_number tok then "NUM" else "FIELD")
+       | _ -> print_endline "BAD")
+    done with End_of_file -> ());
+    exit 0
   end else if Array.length a >= 2 && a.(1) = "vf" then begin
     (* per name: <hex> <176 digits fx=false> \t <176 digits fx=true> \t <11 digits: 1 = the
        Standards refuse the name as a new field name in pedantic mode at Version 0..10> *)
